@@ -78,6 +78,14 @@ CHECKS = {
             "data inside the tunnel, ProxyError and silence after a refusal, exact SOCKS greeting / credentials / command.",
             "Own parsers decode the hop; CONNECT interim replies and SOCKS reply codes 9-255 are C15's domain.",
             "3 C11"),
+    "C14": ("fault_enumeration",
+            "exhaustive enumeration of fault positions x kinds and of HTTP/2 peer actions (RST_STREAM, GOAWAY with every last-stream-id class) at every frame-level event, plus Hypothesis-drawn combinations; oracle = transmissions per token counted by the peers' parsers over all connections",
+            "For 8 connection kinds x 3 contexts x 2 shapes x retries {0,2}: every fault-eligible op x documented fault kind; for HTTP/2 every "
+            "occurrence of request-HEADERS / DATA / request-complete / response-sent x {RST, GOAWAY 0/below/equal/above, with/without close}. A call's "
+            "request may appear on one connection only (two iff a GOAWAY refused the first), refused calls must succeed via the re-send, no new "
+            "stream after a processed GOAWAY.",
+            "asyncio driver; the HTTP/2 peer is truthful about last-stream-id; deadlocks belong to C07/C12.",
+            "3 C14"),
     "C16": ("exploration",
             "exhaustive configuration matrix over the op trace of a simulated backend (timeout argument of every network op) + virtual-clock pool-timeout schedules",
             "Every combination of connect/read/write/pool in {absent, None, 0, value} x 14 connection kinds x 3 request shapes, two requests "
